@@ -92,6 +92,7 @@ func actionLint(ctx context.Context, c *cli.Command) error {
 	if err != nil {
 		return err
 	}
+	verifEntries(entries)
 
 	ctx = context.WithValue(ctx, config.CommandKey, config.LintCommand)
 
@@ -152,6 +153,7 @@ func actionLint(ctx context.Context, c *cli.Command) error {
 
 	summary.SortReports()
 	summary.Dedup()
+	verifSummary(summary)
 	for _, rep := range reps {
 		err = rep.Submit(summary)
 		if err != nil {
